@@ -275,6 +275,27 @@ func buildGrammar() {
 		k := k
 		add("lookalike", fmt.Sprintf("put(%q)", k), true, func() *proto.WriteRequest { return onePut(put(k, "plain")) })
 	}
+	// --- strings that are not valid UTF-8 (the wire codec does not validate them; a log entry may be
+	// decoded by another decoder on another route)
+	add("encoding", `put("a\xff")`, false, func() *proto.WriteRequest { return onePut(put("a\xff", "v")) })
+	add("encoding", `put(a,value="\xff\xfe")`, false, func() *proto.WriteRequest { return onePut(put("a", "\xff\xfe")) })
+	add("encoding", `delete("a\xff")`, false, func() *proto.WriteRequest { return oneDel("a\xff", nil) })
+	add("encoding", `range["a\xff","b\xff")`, false, func() *proto.WriteRequest { return oneRange("a\xff", "b\xff") })
+	add("encoding", `put(a,pk="p\xff")`, false, func() *proto.WriteRequest {
+		a := put("a", "v")
+		a.PartitionKey = oxh.Str("p\xff")
+		return onePut(a)
+	})
+	add("encoding", `put(a,idx i:"s\xff")`, false, func() *proto.WriteRequest {
+		a := put("a", "v")
+		a.SecondaryIndexes = []*proto.SecondaryIndex{{IndexName: "i", SecondaryKey: "s\xff"}}
+		return onePut(a)
+	})
+	add("encoding", `put(a,idx "i\xff":s)`, false, func() *proto.WriteRequest {
+		a := put("a", "v")
+		a.SecondaryIndexes = []*proto.SecondaryIndex{{IndexName: "i\xff", SecondaryKey: "s"}}
+		return onePut(a)
+	})
 	// --- sessions: unknown session, negative id, fabricated session record, ephemeral put under it
 	add("session", "put(e,session=999)", false, func() *proto.WriteRequest {
 		p := put("e", "eph")
@@ -926,6 +947,37 @@ func e2e(scratch string, log []int) (res e2eResult) {
 	return res
 }
 
+// tailReplay: the requests are logged by a real leader; a second leader controller is then opened on the same
+// WAL with an empty database and elected. Returns "" when it becomes leader and serves a later write.
+func tailReplay(scratch string, log []int) (msg string) {
+	defer func() {
+		if r := recover(); r != nil {
+			msg = fmt.Sprintf("PANIC: %v", r)
+		}
+	}()
+	n, _ := startLeader(scratch, buildersOf(log))
+	defer n.stop()
+	_ = n.lc.Close()
+	n.lc = nil
+	fresh := newStore()
+	defer fresh.close()
+	lc, err := server.NewLeaderController(server.Config{NotificationsRetentionTime: time.Hour}, "ns", 1, n.rpc, n.walF, fresh.f)
+	if err != nil {
+		return "NewLeaderController: " + errStr(err)
+	}
+	defer func() { _ = lc.Close() }()
+	if _, err := lc.NewTerm(&proto.NewTermRequest{Shard: 1, Term: 2}); err != nil {
+		return "NewTerm: " + errStr(err)
+	}
+	if _, err := lc.BecomeLeader(context.Background(), &proto.BecomeLeaderRequest{Shard: 1, Term: 2, ReplicationFactor: 1, FollowerMaps: noFollowers}); err != nil {
+		return "BecomeLeader: " + errStr(err)
+	}
+	if m, ok := laterWrite(lc); !ok {
+		return "later write: " + m
+	}
+	return ""
+}
+
 // replStream is the server side of a scripted Replicate stream.
 type replStream struct {
 	grpc.ServerStream
@@ -1265,6 +1317,19 @@ func main() {
 		}
 	}
 	run.Coverage["e2e_by_typed_rejection_class"] = e2eByRej
+	// tail-replay route: every accepted request, alone and after a plain put, is in the log of a node whose
+	// database has applied none of it (a follower promoted before it applied its tail, or a database that lost
+	// its unflushed state in a crash): NewTerm + BecomeLeader must replay the log and a later write must go through.
+	for _, gi := range acc {
+		for _, log := range [][]int{{gi}, {genByName["put(a)"], gi}} {
+			if msg := tailReplay(scratch, log); msg != "" {
+				run.Violate(ev.Violation{Key: "tail-replay:" + gens[gi].family + ":become-leader-blocked-by-logged-request", Harness: "c13-tail-replay",
+					Replay:  map[string]any{"log": names(log), "indices": log},
+					Message: fmt.Sprintf("log %v accepted through the public write handler; a node that holds it in its log and has applied none of it cannot become leader: %s", names(log), msg)})
+			}
+			run.Add("tail_replay_runs", 1)
+		}
+	}
 	// control: a healthy log through the same end-to-end routes must not block anything
 	ctl := e2e(scratch, []int{genByName["put(a)"], genByName["seqput(p,pk=true,ev=false,deltas=[1])"]})
 	countE2E(run, ctl)
